@@ -1,6 +1,7 @@
 package c12
 
 import (
+	"bytes"
 	"crypto"
 	"crypto/ecdsa"
 	"crypto/ed25519"
@@ -18,6 +19,7 @@ import (
 	"strconv"
 	"strings"
 
+	"verif/internal/derx"
 	"verif/internal/keys"
 	"verif/internal/pki"
 	"verif/internal/rfc6962"
@@ -46,24 +48,36 @@ type Case struct {
 	// How the client is given its key, and which other clients exist in the process before it.
 	// KeyPEM: 0 = Options.PublicKey unset, 1 = PEM of the log key, 2 = PEM of the decoy key (only together
 	// with PublicKeyDER, which takes precedence by the documented rule). NoDER: PublicKeyDER unset (then KeyPEM is 1).
-	KeyPEM    int
-	NoDER     bool
-	DecoyIdx  int             // the decoy key: same kind as the log key, another pool entry
-	Siblings  []Sibling       // clients built in the same process before the client under test
-	Fill      int             // get-entries: pad the reply to about this many entries with copies of a small well-formed entry
-	FillPos   int             // where the generated entries sit among the padding: 0 = at the end, 1 = at the start, 2 = in the middle
-	Rekey     bool            // submissions: the final issuer certificate of the chain is replaced by one with the same subject and another key
-	Chain     world.ChainSpec // the submission
-	Other     world.ChainSpec // "another certificate"
-	Entries   []EntrySpec     // get-entries / get-entry-and-proof payload
-	Timestamp uint64
-	TreeSize  uint64
-	Seed      uint32 // root hash and proof nodes derive from it
-	Ext       []byte // SCT extensions
-	NHashes   int
-	A, B      uint64 // call arguments
-	Script    []Resp // served in order; the last one repeats for ever
-	DeadlineS int    // caller deadline (virtual seconds) for the retrying methods
+	KeyPEM     int
+	NoDER      bool
+	DecoyIdx   int             // the decoy key: same kind as the log key, another pool entry
+	Siblings   []Sibling       // clients built in the same process before the client under test
+	Fill       int             // get-entries: pad the reply to about this many entries with copies of a small well-formed entry
+	FillPos    int             // where the generated entries sit among the padding: 0 = at the end, 1 = at the start, 2 = in the middle
+	Rekey      bool            // submissions: the final issuer certificate of the chain is replaced by one with the same subject and another key
+	KlogV      int             // the process-wide klog -v level while the call runs (0 = default)
+	ChainEdits []ChainEdit     // submissions: the caller's chain elements are not one certificate each
+	Chain      world.ChainSpec // the submission
+	Other      world.ChainSpec // "another certificate"
+	Entries    []EntrySpec     // get-entries / get-entry-and-proof payload
+	Timestamp  uint64
+	TreeSize   uint64
+	Seed       uint32 // root hash and proof nodes derive from it
+	Ext        []byte // SCT extensions
+	NHashes    int
+	A, B       uint64 // call arguments
+	Script     []Resp // served in order; the last one repeats for ever
+	DeadlineS  int    // caller deadline (virtual seconds) for the retrying methods
+}
+
+// ChainEdit damages the element structure of the submitted chain (the DER stream may stay the same).
+// Kind: "concat" (element At is followed, inside the element, by another whole certificate), "merge"
+// (elements At and At+1 become one element), "split" (element At is cut into two elements after N
+// bytes), "empty-insert" (an empty element before At), "empty-replace".
+type ChainEdit struct {
+	Kind string
+	At   int
+	N    int
 }
 
 // Sibling is another client's key configuration: 0 = unset, 1 = the log key, 2 = the decoy key.
@@ -378,7 +392,80 @@ func (s *scene) submission() [][]byte {
 		}
 		out[s.twinAt] = s.twin.DER
 	}
+	for _, e := range s.c.ChainEdits {
+		if len(out) == 0 {
+			break
+		}
+		at := e.At % len(out)
+		switch e.Kind {
+		case "concat":
+			extra := s.other.Leaf.DER
+			if e.N%2 == 0 && at+1 < len(out) {
+				extra = out[at+1]
+			}
+			out[at] = append(clone(out[at]), extra...)
+		case "merge":
+			if at+1 < len(out) {
+				out[at] = append(clone(out[at]), out[at+1]...)
+				out = append(out[:at+1], out[at+2:]...)
+			} else {
+				out[at] = append(clone(out[at]), s.other.Leaf.DER...)
+			}
+		case "split":
+			if len(out[at]) > 1 {
+				k := 1 + e.N%(len(out[at])-1)
+				a, b := clone(out[at][:k]), clone(out[at][k:])
+				out = append(append(append([][]byte{}, out[:at]...), a, b), out[at+1:]...)
+			}
+		case "empty-insert":
+			out = append(append(append([][]byte{}, out[:at]...), []byte{}), out[at:]...)
+		case "empty-replace":
+			out[at] = []byte{}
+		}
+	}
 	return out
+}
+
+// expectedEntry is the entry the SCT handed back has to verify for, derived from the bytes that were
+// actually submitted: an x509 entry holds chain[0] as it was sent; a precert entry exists only when the
+// precertificate and the certificates naming its final issuer are each exactly one DER value.
+func (s *scene) expectedEntry() (rfc6962.Entry, string) {
+	if len(s.c.ChainEdits) == 0 {
+		return s.entryFor(s.c.Method, s.chain), ""
+	}
+	sub := s.submission()
+	single := func(b []byte) bool {
+		_, rest, err := derx.Parse(b)
+		return err == nil && len(rest) == 0
+	}
+	if s.c.Method == "AddChain" {
+		if len(sub[0]) == 0 {
+			return rfc6962.Entry{}, "element 0 of the submitted chain is empty"
+		}
+		return rfc6962.Entry{Type: rfc6962.X509Entry, Cert: sub[0]}, ""
+	}
+	need := 2
+	if s.chain.PreIssuer != nil {
+		need = 3
+	}
+	for i := 0; i < need; i++ {
+		if i >= len(sub) || !single(sub[i]) {
+			return rfc6962.Entry{}, fmt.Sprintf("element %d of the submitted chain is not one certificate", i)
+		}
+	}
+	// the elements that define the entry are intact certificates: they must also be the ones the
+	// unedited chain has at these positions (an edit may have shifted others into their place)
+	plain := *s
+	pc := s.c
+	pc.ChainEdits = nil
+	plain.c = pc
+	ref := plain.submission()
+	for i := 0; i < need; i++ {
+		if i >= len(ref) || !bytes.Equal(ref[i], sub[i]) {
+			return rfc6962.Entry{}, fmt.Sprintf("element %d of the submitted chain is not the certificate the entry is defined by", i)
+		}
+	}
+	return s.entryFor(s.c.Method, s.chain), ""
 }
 
 // entryFor is the RFC 6962 entry an honest log signs for the submission through this method.
@@ -683,7 +770,9 @@ func (s *scene) hashes(n int) []string {
 	return out
 }
 
-var bodyVariants = []string{"", "null", "[]", "{}", `"x"`, "0", "<html><body>502 Bad Gateway</body></html>", "{", "\x00\x00\x00", "true"}
+var bigPage = "<html><head><title>503 Service Temporarily Unavailable</title></head><body>" + strings.Repeat("<p>The log is over quota, please come back later.</p>\n", 30) + "</body></html>"
+
+var bodyVariants = []string{bigPage, bigPage[:513], bigPage[:600], "{\"error\":\"" + strings.Repeat("x", 700) + "\"", "", "null", "[]", "{}", `"x"`, "0", "<html><body>502 Bad Gateway</body></html>", "{", "\x00\x00\x00", "true"}
 
 var oddHeaders = [][2]string{
 	{"Content-Type", "text/html; charset=utf-16"}, {"Retry-After", "1"}, {"Retry-After", "soon"}, {"Content-Length", "3"},
